@@ -32,16 +32,21 @@ CONSTANTS MaxUnits,      \* number of units below the top level
           MaxParams, MaxDecl,
           Start, Cont,   \* sequences of one-character strings: first / following characters of generated names
           DReserved,     \* reserved words of the reduced alphabet
-          AllowWith, AllowVars, MaxUses
+          AllowWith, AllowVars, MaxUses,
+          RestoreOwn     \* FALSE = the code; TRUE = self-test mutant: on leaving a function the rename flag is restored
+                         \* to the function's own value instead of the saved one (the two lines at the top of
+                         \* minifyArrowFunc/minifyFuncDecl/minifyMethodDecl swapped)
 
 Names == LocalNames \cup FreeNames
 
 VARIABLES units,   \* the tree (chosen in Init, constant afterwards)
-          pc,      \* 0 = not analysed yet; then next unit to rename; Len(units)+1 = done
+          pc,      \* 0 = not analysed yet; then index of the next event of aux.ev; Len(aux.ev)+1 = done
           newname, \* function: binding <<scope, keep name>> -> generated name (for renamed bindings)
           aux,     \* facts derived from the tree (computed once)
-          fin      \* when done: the program with both worlds and their resolutions
-vars == <<units, pc, newname, aux, fin>>
+          fin,     \* when done: the program with both worlds and their resolutions
+          flag,    \* renamer.rename: is shortening switched on right now
+          stack    \* the parentRename values saved by the functions that are being minified
+vars == <<units, pc, newname, aux, fin, flag, stack>>
 
 (* ---------------- the space of trees ---------------- *)
 SeqsUpTo(S, n) == UNION {[1..k -> S] : k \in 0..n}
@@ -115,12 +120,20 @@ Program(us, fs, es, nm) ==
       keep   |-> [k \in 1..Len(es) |-> es[k][3]],
       ren    |-> nm, innok |-> FALSE, inn |-> <<>>]
 
+\* The order in which js.go walks the tree: a scope is renamed when it is entered (parents before children, siblings in
+\* source order); a function additionally saves and sets the rename flag on entry and restores it when it is left.
+Kids(us, i) == SelectSeq([k \in 1..Len(us) |-> k], LAMBDA k : us[k].par = i)
+RECURSIVE EvOf(_, _)
+EvOf(us, i) == << <<"enter", i>> >> \o FoldLeft(LAMBDA acc, k : acc \o EvOf(us, k), <<>>, Kids(us, i))
+               \o (IF us[i].kind = "F" THEN << <<"leave", i>> >> ELSE <<>>)
+Events(us) == FoldLeft(LAMBDA acc, k : acc \o EvOf(us, k), <<>>, Kids(us, 0))
+
 Aux(us) ==
   LET fs == FirstScopes(us)
       es == Entries(us, fs)
       kp == Program(us, fs, es, [k \in 1..Len(es) |-> es[k][3]])
       r  == ResolveAll(kp, World(kp, "keep"))
-  IN [fs |-> fs, es |-> es, kp |-> kp,
+  IN [fs |-> fs, es |-> es, kp |-> kp, ev |-> Events(us),
       kr |-> FoldLeft(LAMBDA f, i : f @@ (r[i].occ :> r[i].bind), <<>>, [i \in 1..Len(r) |-> i])]
 
 (* ---------------- the renamer ---------------- *)
@@ -149,8 +162,9 @@ UndeclaredOf(us, a, i) ==
   LET own == OwnScopes(us, a.fs, i) IN
   {<<a.kr[k], a.es[k][3]>> : k \in {j \in DOMAIN a.kr : IsUnder(us, a.es[j][4], i) /\ a.kr[j] \notin own}}
 
-\* is renaming switched on for unit i?  (js.go: rename = !HasWith of the *function* being minified, restored on exit;
-\* blocks inherit the flag of the function they are in; the top level starts with renaming on)
+\* What the flag is MEANT to be when unit i is entered (js.go: rename = !HasWith of the *function* being minified,
+\* restored on exit; blocks inherit the flag of the function they are in; the top level starts with renaming on).
+\* The actions below keep the flag the way the code does (save / set / restore); FlagAsMeant relates the two.
 RECURSIVE RenameOn(_, _)
 RenameOn(us, i) == IF i = 0 THEN TRUE ELSE IF us[i].kind = "F" THEN ~us[i].w ELSE RenameOn(us, us[i].par)
 
@@ -183,28 +197,60 @@ Init == /\ \E n \in 1..MaxUnits : \E pv \in ParentVecs(n) : \E bs \in [1..n -> B
         /\ newname = <<>>
         /\ aux = <<>>
         /\ fin = <<>>
+        /\ flag = TRUE          \* newRenamer(!KeepVarNames, ...): the top level starts with shortening on
+        /\ stack = <<>>
 
 \* the parser's pass: resolve every reference of the input (kept out of Init so that TLC's workers share it)
 Analyse ==
   /\ pc = 0
   /\ pc' = 1
   /\ aux' = Aux(units)
-  /\ UNCHANGED <<units, newname, fin>>
+  /\ fin' = IF Len(aux'.ev) = 0 THEN Finish(units, aux', newname) ELSE <<>>
+  /\ UNCHANGED <<units, newname, flag, stack>>
 
-RenameScope ==
+\* renameScope(scope of unit i) under the current flag
+Renamed(i, on) ==
+  IF ~on THEN newname' = newname
+  ELSE \E order \in Orders(units, aux, i) :
+          newname' = Assign(order, 1, 0, {CurName(newname, b) : b \in UndeclaredOf(units, aux, i)}, newname)
+
+\* minifyBlockStmt / for / switch / catch ...: renameScope on entry, the flag is not touched
+EnterBlock(i) ==
+  /\ units[i].kind = "B"
+  /\ Renamed(i, flag)
+  /\ UNCHANGED <<flag, stack>>
+\* minifyFuncDecl / minifyMethodDecl / minifyArrowFunc:  parentRename := rename; rename = !HasWith && !KeepVarNames; renameScope
+EnterFunction(i) ==
+  /\ units[i].kind = "F"
+  /\ stack' = Append(stack, IF RestoreOwn THEN ~units[i].w ELSE flag)
+  /\ flag' = ~units[i].w
+  /\ Renamed(i, flag')
+\* ... rename = parentRename
+LeaveFunction(i) ==
+  /\ flag' = stack[Len(stack)]
+  /\ stack' = SubSeq(stack, 1, Len(stack) - 1)
+  /\ newname' = newname
+
+Step ==
   /\ pc >= 1
-  /\ pc <= Len(units)
+  /\ pc <= Len(aux.ev)
   /\ pc' = pc + 1
   /\ UNCHANGED <<units, aux>>
-  /\ IF ~RenameOn(units, pc) THEN newname' = newname
-     ELSE \E order \in Orders(units, aux, pc) :
-             newname' = Assign(order, 1, 0, {CurName(newname, b) : b \in UndeclaredOf(units, aux, pc)}, newname)
-  /\ fin' = IF pc' = Len(units) + 1 THEN Finish(units, aux, newname') ELSE <<>>
-Next == Analyse \/ RenameScope
+  /\ LET e == aux.ev[pc] IN
+       IF e[1] = "enter" THEN EnterBlock(e[2]) \/ EnterFunction(e[2]) ELSE LeaveFunction(e[2])
+  /\ fin' = IF pc' = Len(aux.ev) + 1 THEN Finish(units, aux, newname') ELSE <<>>
+Next == Analyse \/ Step
 Spec == Init /\ [][Next]_vars
 
 (* ---------------- D => A : the finished renaming satisfies the clauses of C02 ---------------- *)
-Done == pc = Len(units) + 1
+Done == pc >= 1 /\ pc = Len(aux.ev) + 1
+
+\* call-order invariant: whenever a scope is about to be entered, the flag the code carries is the flag it is meant to
+\* have (for a function the flag is set on entry, so the claim is about blocks and about what a function restores)
+FlagAsMeant ==
+  (pc >= 1 /\ pc <= Len(aux.ev) /\ aux.ev[pc][1] = "enter") =>
+     LET i == aux.ev[pc][2] IN units[i].kind = "B" => flag = RenameOn(units, i)
+StackDepth == Done => stack = <<>>
 
 CaptureFree == Done => /\ BadScope(fin.rk, fin.rr) = {}
                        /\ Bijective(Pairs(fin.p, fin.rk, fin.rr))
